@@ -29,7 +29,7 @@ def gen_arrays(rng, nprng, count):
     out = []
     for i in range(count):
         kind = rng.choice(['gauss', 'gauss', 'gauss', 'ties', 'mono', 'anti', 'constU', 'constV', 'constBoth',
-                           'outside', 'tiny', 'indep', 'tau0', 'strong', 'strong', 'edge'])
+                           'outside', 'tiny', 'indep', 'tau0', 'strong', 'strong', 'edge', 'nearties'])
         n = rng.choice([2, 3, 4, 5, 8, 20, 60, 150, 400])
         if kind in ('gauss', 'ties'):
             rho = rng.uniform(-0.95, 0.95)
@@ -51,6 +51,12 @@ def gen_arrays(rng, nprng, count):
             X = nprng.uniform(size=(max(n, 3), 2))
             X[rng.randrange(len(X)), rng.randrange(2)] = rng.choice([1 + 1e-8, -1e-10, float(np.nextafter(1.0, 2.0)),
                                                                       float(np.nextafter(0.0, -1.0)), 0.0, 1.0])
+        elif kind == 'nearties':
+            # distinct values closer than 1e-9 to each other and to 0/1 (far-tail probabilities)
+            n = max(n, 8)
+            z = nprng.normal(size=(n, 2)) * 1.2
+            z[: n // 2] += np.array([6.5, 6.5]) * np.sign(nprng.normal(size=(n // 2, 1)))
+            X = stats.norm.cdf(z)
         elif kind == 'mono':
             u = np.sort(nprng.uniform(size=n))
             X = np.column_stack((u, u ** rng.choice([0.5, 1, 2])))
@@ -255,6 +261,39 @@ def search(ctx, deep):
                 if us == 'usable':
                     # a refused fit on a fresh object must not leave a usable model behind
                     bad('refused-but-usable', {'theta': rtheta}, 'refused fit leaves no usable model')
+    # history with refusals: a refused fit must not influence a later fit on the same object
+    refusing = [X for kind, X in arrays if kind in ('gauss', 'ties', 'anti', 'tau0', 'tiny') and len(X) >= 2][:10]
+    for fam in B.FAMS:
+        for X in refusing:
+            fresh0 = B.cls_of(fam)()
+            r0 = 'ok'
+            try:
+                fresh0.fit(X)
+            except Exception as e:  # noqa
+                r0 = 'err ' + vc.exc_kind(e)
+            if r0 == 'ok':
+                continue
+            obj = B.cls_of(fam)()
+            seq = []
+            for Y in (X, X[::-1].copy(), X):
+                try:
+                    obj.fit(Y)
+                    seq.append('ok')
+                except Exception as e:  # noqa
+                    seq.append('err ' + vc.exc_kind(e))
+            checked += 1
+            try:
+                obj.check_fit()
+                usable = True
+            except Exception:  # noqa
+                usable = False
+            if seq != [r0, r0, r0] or usable:
+                found += 1
+                ctx.fail_input(f'{fam}.fit', {'history': 'fit(X) refused; fit(X reversed); fit(X)', 'X': X.tolist()[:8]},
+                               {'fresh': r0, 'sequence': seq, 'usable_afterwards': usable, 'theta': obj.theta},
+                               'every fit of the same data on the same object is refused like on a fresh object',
+                               f'{fam}.fit:refusal-depends-on-history')
+                break
     # history: re-fitting an already fitted object = fitting a fresh one (tau AND theta are recomputed)
     valid = [X for kind, X in arrays if kind in ('gauss', 'ties', 'indep') and len(X) >= 20][:12]
     for fam in B.FAMS:
